@@ -167,7 +167,10 @@ class Env:
                 conds.append(bool(ok))
                 continue
             try:
-                xz, yz = S.toz(x), S.toz(y)
+                for v in (x, y):
+                    if isinstance(v, Sym) and v.nan is not None:
+                        conds.append(z3.Not(v.nan))  # a lazily-NaN value must not be NaN here
+                xz, yz = S._tz(x), S._tz(y)
             except ValueError:
                 conds.append(False)  # nan/inf against a finite symbolic value
                 continue
@@ -194,7 +197,10 @@ class Env:
             cond = cond.e
         if isinstance(cond, (bool, np.bool_)):
             return bool(cond)
-        r, _ = self.rec._query([z3.Not(cond)], timeout)
+        neg = z3.Not(cond)
+        if is_nonlinear(neg) and self.rec._abstract_unsat(self, neg, timeout=min(timeout, 10000)):
+            return True
+        r, _ = self.rec._query([neg], timeout)
         return r == z3.unsat
 
     def equal(self, a, b, label, info=None):
@@ -212,6 +218,23 @@ class Env:
                 self.used_stubs.add(getattr(m, "stub_name", getattr(m, "__name__", str(m))))
                 st.enter_context(m() if callable(m) and not hasattr(m, "__enter__") else m)
             yield
+
+    @contextlib.contextmanager
+    def lazy_sqrt(self):
+        """sym mode: sqrt does not fork on a negative radicand but poisons its result (Sym.nan);
+        the harness must resolve() the values it inspects."""
+        if not self.sym:
+            yield
+            return
+        old = self.ctx.lazy_sqrt
+        self.ctx.lazy_sqrt = True
+        try:
+            yield
+        finally:
+            self.ctx.lazy_sqrt = old
+
+    def resolve(self, x):
+        return x.resolve() if isinstance(x, Sym) else x
 
     def note(self, **kw):
         if self.rec is not None:
@@ -261,20 +284,20 @@ class PathRecord:
         self.via_abstraction = 0
 
     def _query(self, extra, timeout):
-        s = self.ctx.solver
-        s.set("timeout", timeout)
+        """(result, model) for path condition + extra. Uses the cone-of-influence slice first;
+        a `sat` there is confirmed against the full path condition so that models are genuine."""
         t0 = time.time()
-        s.push()
-        try:
-            for e in extra:
-                s.add(e)
-            r = s.check()
-            m = s.model() if r == z3.sat else None
-        finally:
-            s.pop()
-            s.set("timeout", self.ctx_feas_timeout())
-        self.obl_time += time.time() - t0
+        r, m = self.ctx.solve(extra, timeout)
         self.nqueries += 1
+        if r == z3.sat and len(self.ctx.relevant(extra)) < len(self.ctx.conds):
+            r2, m2 = self.ctx.solve(extra, timeout, full=True)
+            self.nqueries += 1
+            if r2 == z3.unsat:
+                r, m = r2, None
+            elif r2 == z3.sat:
+                m = m2
+            # unknown on the full condition: keep the slice model, the replay is the judge
+        self.obl_time += time.time() - t0
         return r, m
 
     def _abstract_unsat(self, env, neg, timeout=30000):
@@ -288,7 +311,7 @@ class PathRecord:
             nonneg.add(y.get_id())
         t0 = time.time()
         try:
-            asserts, ab = abstract_query(self.ctx.conds, neg, nonneg)
+            asserts, ab = abstract_query(self.ctx.relevant([neg]), neg, nonneg)
             s = z3.Solver()
             s.set("timeout", timeout)
             s.add(*asserts)
